@@ -1,4 +1,20 @@
 import Logrange.Proofs.LqlEngineStmt
+/-!
+# C12: engine = direct parser at statement level — TRUNCATE and SHOW
+
+`engine_direct_truncate`, `engine_direct_show`: the participle-engine interpreter on the regenerated grammar (root `Lql`), followed by
+the typed application of the captures and the post-check, equals `dTruncateRest` / `dShowRest`.
+
+Pieces: the struct bodies pinned by `rfl` (`g_truncate`, `g_show`, `g_partitions`, `g_pipes`); a generic chain of guarded clauses
+`("KW" @Tok)?` (`clause_step`, `chain_skip`, `chain_sim`, `chain_finish`) against a raw (unconverted) reading `rawKw`/`rawChain`;
+the unguarded `(@@)?` source followed by such a chain (`src_chain`), with the delicate point that a HARD error of the source attempt
+kills the engine's parse while `dOptSource` just returns "no source": `source_shallow` shows that outside the token configurations
+`deepStart` (NOT…, `(`…, operand followed by `(` or an operator) the attempt fails within one token, and `deep4`/`deep2` show that on
+those configurations the direct clause chain fails too — for `BEFORE` this needs the hypothesis `hdp` (the opaque date parser rejects
+the texts `(` and the ten operators; `cex_truncate_dp` shows the statement is false without it); the direct clause readers as raw
+reading + conversion (`dSize_raw`, `dDate_raw`, `dInt_raw`, `glue4`, `glue2`); the conversions (`toLql_trunc`, `truncConv_caps`,
+`toLql_show_part`, `toLql_show_pipes`, `polConv_caps`).
+-/
 namespace Logrange.Lql
 open Logrange.Generated.C12
 
@@ -434,5 +450,634 @@ theorem src_chain (c : Ctx) (hg : c.grammar = grammar) (hH : OperandNotParen c.t
           rw [src_step_ok c fl _ (g+71) s first vals0 caps0 _ cur' hR, hsk]
           left
           exact ⟨Or.inr ⟨_, _, cur', rfl, lt_of_get hq⟩, Or.inr (Or.inl ⟨hdo, hdeep⟩)⟩
+
+theorem parseBytes_deep : ∀ b ∈ LP :: condOps, parseBytes b = none := by decide
+theorem parseInt0_deep : ∀ b ∈ LP :: condOps, parseInt0 b = none := by decide
+
+theorem deep_val (n : Tok) (hk : n.t ≠ TT.keyword) (h : litMatch n LP = true ∨ isOpTok n = true) : n.v ∈ LP :: condOps := by
+  have hk' : (n.t == TT.keyword) = false := by simpa using hk
+  rcases h with h | h
+  · simp only [litMatch, hk', Bool.false_eq_true, if_false, beq_iff_eq] at h
+    rw [h]; exact List.mem_cons_self
+  · simp only [isOpTok, List.any_eq_true] at h
+    obtain ⟨l, hl, hm⟩ := h
+    simp only [litMatch, hk', Bool.false_eq_true, if_false, beq_iff_eq] at hm
+    rw [hm]; exact List.mem_cons_of_mem _ hl
+
+/-! ## the direct clause readers as raw reading + conversion -/
+def cvo {α : Type} (conv : Bytes → Option α) : Option Bytes → Option (Option α)
+  | none => some none
+  | some b => (conv b).map some
+
+def convCl {α : Type} (conv : Bytes → Option α) (x : Option (Option Bytes × List Tok)) : Option (Option α × List Tok) :=
+  match x with
+  | none => none
+  | some (ob, r) => (cvo conv ob).map (fun v => (v, r))
+
+theorem dSize_raw (kw : Bytes) (toks : List Tok) : dSizeClause kw toks = convCl parseBytes (rawKw kw .number toks) := by
+  cases toks with
+  | nil => rfl
+  | cons t rest =>
+    simp only [dSizeClause, rawKw]
+    cases litMatch t kw with
+    | false => rfl
+    | true =>
+      cases rest with
+      | nil => rfl
+      | cons n r' =>
+        by_cases hty : n.t = TT.number
+        · simp only [hty, beq_self_eq_true, if_true, convCl, cvo]; cases parseBytes n.v <;> rfl
+        · have hty' : (n.t == TT.number) = false := by simpa using hty
+          simp [hty', convCl]
+
+theorem dDate_raw (dp : Bytes → Option Int) (kw : Bytes) (toks : List Tok) : dDateClause dp kw toks = convCl dp (rawKw kw .string toks) := by
+  cases toks with
+  | nil => rfl
+  | cons t rest =>
+    simp only [dDateClause, rawKw]
+    cases litMatch t kw with
+    | false => rfl
+    | true =>
+      cases rest with
+      | nil => rfl
+      | cons n r' =>
+        by_cases hty : n.t = TT.string
+        · simp only [hty, beq_self_eq_true, if_true, convCl, cvo]; cases dp n.v <;> rfl
+        · have hty' : (n.t == TT.string) = false := by simpa using hty
+          simp [hty', convCl]
+
+theorem dInt_raw (kw : Bytes) (toks : List Tok) : dKwClause kw dIntTok toks = convCl parseInt0 (rawKw kw .number toks) := by
+  cases toks with
+  | nil => rfl
+  | cons t rest =>
+    simp only [dKwClause, rawKw]
+    cases litMatch t kw with
+    | false => rfl
+    | true =>
+      cases rest with
+      | nil => rfl
+      | cons n r' =>
+        simp only [dIntTok, if_true]
+        cases hty : n.t == TT.number with
+        | false => simp [convCl]
+        | true => simp only [if_true, convCl, cvo]; cases parseInt0 n.v <;> rfl
+
+/-! ## TRUNCATE: the four clauses -/
+def cls4 : List Cl := [(kwMINSIZE, "MinSize", .number), (kwMAXSIZE, "MaxSize", .number), (kwBEFORE, "Before", .string), (kwMAXDBSIZE, "MaxDbSize", .number)]
+
+def dChain4 (dp : Bytes → Option Int) (t2 : List Tok) : Option (Option Nat × Option Nat × Option Int × Option Nat) :=
+  match dSizeClause kwMINSIZE t2 with
+  | none => none
+  | some (mn, t3) =>
+    match dSizeClause kwMAXSIZE t3 with
+    | none => none
+    | some (mx, t4) =>
+      match dDateClause dp kwBEFORE t4 with
+      | none => none
+      | some (bf, t5) =>
+        match dSizeClause kwMAXDBSIZE t5 with
+        | none => none
+        | some (db, r) => (match r with | [] => some (mn, mx, bf, db) | _ :: _ => none)
+
+def mkTrunc (dry : Bool) (src : Option Source) (q : Option Nat × Option Nat × Option Int × Option Nat) : Truncate :=
+  { dryRun := dry, source := src, minSize := q.1, maxSize := q.2.1, before := q.2.2.1, maxDbSize := q.2.2.2 }
+
+theorem dTruncBody_eq (dp : Bytes → Option Int) (f : Nat) (toks : List Tok) :
+    dTruncBody dp f toks = (match dOptSource f (dDryRun toks).2 with
+      | none => none
+      | some (src, t2) => (dChain4 dp t2).map (mkTrunc (dDryRun toks).1 src)) := by
+  unfold dTruncBody dChain4
+  cases dOptSource f (dDryRun toks).2 with
+  | none => rfl
+  | some p =>
+    obtain ⟨src, t2⟩ := p
+    simp only []
+    cases dSizeClause kwMINSIZE t2 with
+    | none => rfl
+    | some p1 =>
+      obtain ⟨mn, t3⟩ := p1
+      simp only []
+      cases dSizeClause kwMAXSIZE t3 with
+      | none => rfl
+      | some p2 =>
+        obtain ⟨mx, t4⟩ := p2
+        simp only []
+        cases dDateClause dp kwBEFORE t4 with
+        | none => rfl
+        | some p3 =>
+          obtain ⟨bf, t5⟩ := p3
+          simp only []
+          cases dSizeClause kwMAXDBSIZE t5 with
+          | none => rfl
+          | some p4 =>
+            obtain ⟨db, r⟩ := p4
+            cases r <;> rfl
+
+def conv4 (dp : Bytes → Option Int) (o1 o2 o3 o4 : Option Bytes) : Option (Option Nat × Option Nat × Option Int × Option Nat) :=
+  (cvo parseBytes o1).bind fun mn => (cvo parseBytes o2).bind fun mx => (cvo dp o3).bind fun bf => (cvo parseBytes o4).bind fun db =>
+    some (mn, mx, bf, db)
+
+theorem glue4 (dp : Bytes → Option Int) (t2 : List Tok) :
+    (∃ o1 o2 o3 o4, rawChain cls4 t2 = some ([o1, o2, o3, o4], []) ∧ dChain4 dp t2 = conv4 dp o1 o2 o3 o4)
+    ∨ ((∀ obs, rawChain cls4 t2 ≠ some (obs, [])) ∧ dChain4 dp t2 = none) := by
+  simp only [dChain4, dSize_raw, dDate_raw, rawChain, cls4]
+  cases k1 : rawKw kwMINSIZE TT.number t2 with
+  | none => right; simp [convCl]
+  | some p1 =>
+    obtain ⟨o1, r1⟩ := p1
+    simp only []
+    cases k2 : rawKw kwMAXSIZE TT.number r1 with
+    | none => right; cases h : cvo parseBytes o1 <;> simp [convCl, h, k2]
+    | some p2 =>
+      obtain ⟨o2, r2⟩ := p2
+      simp only []
+      cases k3 : rawKw kwBEFORE TT.string r2 with
+      | none => right; cases h : cvo parseBytes o1 <;> cases h2 : cvo parseBytes o2 <;> simp [convCl, h, h2, k2, k3]
+      | some p3 =>
+        obtain ⟨o3, r3⟩ := p3
+        simp only []
+        cases k4 : rawKw kwMAXDBSIZE TT.number r3 with
+        | none => right; cases h : cvo parseBytes o1 <;> cases h2 : cvo parseBytes o2 <;> cases h3 : cvo dp o3 <;> simp [convCl, h, h2, h3, k2, k3, k4]
+        | some p4 =>
+          obtain ⟨o4, r4⟩ := p4
+          simp only []
+          cases r4 with
+          | nil =>
+            left; refine ⟨o1, o2, o3, o4, rfl, ?_⟩
+            cases h : cvo parseBytes o1 <;> cases h2 : cvo parseBytes o2 <;> cases h3 : cvo dp o3 <;> cases h4 : cvo parseBytes o4 <;>
+              simp [convCl, conv4, h, h2, h3, h4, k2, k3, k4]
+          | cons q r5 =>
+            right
+            cases h : cvo parseBytes o1 <;> cases h2 : cvo parseBytes o2 <;> cases h3 : cvo dp o3 <;> cases h4 : cvo parseBytes o4 <;>
+              simp [convCl, h, h2, h3, h4, k2, k3, k4]
+
+theorem convCl_deep {α : Type} (conv : Bytes → Option α) (kw : Bytes) (ty : TT) (toks : List Tok) (hd : deepStart toks = true)
+    (he1 : exclB kwNOT kw = true) (he2 : exclB LP kw = true) (hty : ty ≠ TT.keyword) (hconv : ∀ b ∈ LP :: condOps, conv b = none) :
+    convCl conv (rawKw kw ty toks) = some (none, toks) ∨ convCl conv (rawKw kw ty toks) = none := by
+  cases toks with
+  | nil => simp [deepStart] at hd
+  | cons t rest =>
+    cases hm : litMatch t kw with
+    | false => left; simp [rawKw, hm, convCl, cvo]
+    | true =>
+      right
+      have h1 : litMatch t kwNOT = false := by
+        cases h : litMatch t kwNOT with
+        | false => rfl
+        | true => rw [litMatch_exclB t _ _ he1 h] at hm; cases hm
+      have h2 : litMatch t LP = false := by
+        cases h : litMatch t LP with
+        | false => rfl
+        | true => rw [litMatch_exclB t _ _ he2 h] at hm; cases hm
+      cases rest with
+      | nil => simp [rawKw, hm, convCl]
+      | cons n r' =>
+        simp only [deepStart, h1, h2, Bool.false_or, Bool.and_eq_true, Bool.or_eq_true] at hd
+        by_cases hnt : n.t = ty
+        · have hv := hconv n.v (deep_val n (by rw [hnt]; exact hty) hd.2)
+          simp [rawKw, hm, hnt, convCl, cvo, hv]
+        · have hnt' : (n.t == ty) = false := by simpa using hnt
+          simp [rawKw, hm, hnt', convCl]
+
+theorem deep4 (dp : Bytes → Option Int) (hdp : ∀ b ∈ LP :: condOps, dp b = none) (toks : List Tok) (hd : deepStart toks = true) :
+    dChain4 dp toks = none := by
+  simp only [dChain4, dSize_raw, dDate_raw]
+  rcases convCl_deep parseBytes kwMINSIZE .number toks hd (by decide) (by decide) (by decide) parseBytes_deep with h | h <;> rw [h]
+  simp only []
+  rcases convCl_deep parseBytes kwMAXSIZE .number toks hd (by decide) (by decide) (by decide) parseBytes_deep with h | h <;> rw [h]
+  simp only []
+  rcases convCl_deep dp kwBEFORE .string toks hd (by decide) (by decide) (by decide) hdp with h | h <;> rw [h]
+  simp only []
+  rcases convCl_deep parseBytes kwMAXDBSIZE .number toks hd (by decide) (by decide) (by decide) parseBytes_deep with h | h <;> rw [h]
+  cases toks with
+  | nil => simp [deepStart] at hd
+  | cons _ _ => rfl
+
+/-! ## typed application of the captures -/
+theorem fieldVals_append (a b : Caps) (f : String) : fieldVals (a ++ b) f = fieldVals a f ++ fieldVals b f := by
+  simp [fieldVals]
+def obVals : Option Bytes → List Val
+  | some b => [.str b]
+  | none => []
+theorem fieldVals_obCaps_eq (fl : String) (ob : Option Bytes) : fieldVals (obCaps fl ob) fl = obVals ob := by
+  cases ob <;> simp [obCaps, obVals, fieldVals]
+theorem fieldVals_obCaps_ne (fl f : String) (ob : Option Bytes) (h : (fl == f) = false) : fieldVals (obCaps fl ob) f = [] := by
+  cases ob <;> simp [obCaps, fieldVals, h]
+theorem fieldVals_srcCaps_eq (fl : String) (sv : List Val) : fieldVals (srcCaps fl sv) fl = sv := by
+  cases sv <;> simp [srcCaps, fieldVals]
+theorem fieldVals_srcCaps_ne (fl f : String) (sv : List Val) (h : (fl == f) = false) : fieldVals (srcCaps fl sv) f = [] := by
+  cases sv <;> simp [srcCaps, fieldVals, h]
+theorem optConv_ob {α : Type} (N : String) (caps : Caps) (f : String) (conv : Bytes → Option α) (ob : Option Bytes)
+    (h : fieldVals caps f = obVals ob) : optConv (.node N caps) f conv = cvo conv ob := by
+  cases ob <;> simp [optConv, fv, h, obVals, cvo, strs]
+theorem optSource_sv (ft : Nat) (N : String) (caps : Caps) (f : String) (sv : List Val)
+    (h : fieldVals caps f = sv) : optSource ft (.node N caps) f = srcConv ft sv := by
+  subst h
+  simp only [optSource, fv]
+  cases hh : fieldVals caps f with
+  | nil => rfl
+  | cons v vs => cases vs <;> rfl
+
+def truncConv (dp : Bytes → Option Int) (ft : Nat) (t : Val) : Option Truncate := do
+  let src ← optSource ft t "Source"
+  let mn ← optConv t "MinSize" parseBytes
+  let mx ← optConv t "MaxSize" parseBytes
+  let bf ← optConv t "Before" dp
+  let db ← optConv t "MaxDbSize" parseBytes
+  pure ({ dryRun := !(fv t "DryRun").isEmpty, source := src, minSize := mn, maxSize := mx, before := bf, maxDbSize := db } : Truncate)
+
+theorem toLql_trunc (dp : Bytes → Option Int) (ft : Nat) (tr : Val) :
+    toLqlChecked dp ft (.node "Lql" [("Truncate", [tr])]) = (truncConv dp ft tr).map (fun x => ({ truncate := some x } : Lql)) := by
+  have e1 : ∀ {α : Type} (conv : Val → Option α) (f : String), (("Truncate" : String) == f) = false →
+      optNode (.node "Lql" [("Truncate", [tr])]) f conv = some none := by
+    intro α conv f hf; simp [optNode, fv, fieldVals, hf]
+  have e2 : ∀ {α : Type} (conv : Val → Option α), optNode (.node "Lql" [("Truncate", [tr])]) "Truncate" conv = (conv tr).map some := by
+    intro α conv; simp [optNode, fv, fieldVals]
+  have h : toLql dp ft (.node "Lql" [("Truncate", [tr])]) = (truncConv dp ft tr).map (fun x => ({ truncate := some x } : Lql)) := by
+    unfold toLql
+    simp only [e2, e1 _ "Select" (by decide), e1 _ "Describe" (by decide), e1 _ "Show" (by decide), e1 _ "Create" (by decide), e1 _ "Delete" (by decide)]
+    cases h1 : optSource ft tr "Source" <;> cases h2 : optConv tr "MinSize" parseBytes <;> cases h3 : optConv tr "MaxSize" parseBytes <;>
+      cases h4 : optConv tr "Before" dp <;> cases h5 : optConv tr "MaxDbSize" parseBytes <;> simp [truncConv, h1, h2, h3, h4, h5]
+  rw [toLqlChecked, h]
+  cases truncConv dp ft tr with
+  | none => rfl
+  | some x => simp [postCheck, hasEmptyRange]
+
+theorem truncConv_caps (dp : Bytes → Option Int) (ft : Nat) (caps0 : Caps) (sv : List Val) (o1 o2 o3 o4 : Option Bytes)
+    (h1 : fieldVals caps0 "Source" = []) (h2 : fieldVals caps0 "MinSize" = []) (h3 : fieldVals caps0 "MaxSize" = [])
+    (h4 : fieldVals caps0 "Before" = []) (h5 : fieldVals caps0 "MaxDbSize" = []) :
+    truncConv dp ft (.node "Truncate" (caps0 ++ srcCaps "Source" sv ++ rawCaps cls4 [o1, o2, o3, o4])) =
+      (srcConv ft sv).bind fun src => (conv4 dp o1 o2 o3 o4).map (mkTrunc (!(fieldVals caps0 "DryRun").isEmpty) src) := by
+  have hS : fieldVals (caps0 ++ srcCaps "Source" sv ++ rawCaps cls4 [o1, o2, o3, o4]) "Source" = sv := by
+    simp [fieldVals_append, h1, fieldVals_srcCaps_eq, rawCaps, cls4, fieldVals_obCaps_ne]
+  have hD : fieldVals (caps0 ++ srcCaps "Source" sv ++ rawCaps cls4 [o1, o2, o3, o4]) "DryRun" = fieldVals caps0 "DryRun" := by
+    simp [fieldVals_append, fieldVals_srcCaps_ne, rawCaps, cls4, fieldVals_obCaps_ne]
+  have hMn : fieldVals (caps0 ++ srcCaps "Source" sv ++ rawCaps cls4 [o1, o2, o3, o4]) "MinSize" = obVals o1 := by
+    simp [fieldVals_append, h2, fieldVals_srcCaps_ne, rawCaps, cls4, fieldVals_obCaps_ne, fieldVals_obCaps_eq]
+  have hMx : fieldVals (caps0 ++ srcCaps "Source" sv ++ rawCaps cls4 [o1, o2, o3, o4]) "MaxSize" = obVals o2 := by
+    simp [fieldVals_append, h3, fieldVals_srcCaps_ne, rawCaps, cls4, fieldVals_obCaps_ne, fieldVals_obCaps_eq]
+  have hBf : fieldVals (caps0 ++ srcCaps "Source" sv ++ rawCaps cls4 [o1, o2, o3, o4]) "Before" = obVals o3 := by
+    simp [fieldVals_append, h4, fieldVals_srcCaps_ne, rawCaps, cls4, fieldVals_obCaps_ne, fieldVals_obCaps_eq]
+  have hDb : fieldVals (caps0 ++ srcCaps "Source" sv ++ rawCaps cls4 [o1, o2, o3, o4]) "MaxDbSize" = obVals o4 := by
+    simp [fieldVals_append, h5, fieldVals_srcCaps_ne, rawCaps, cls4, fieldVals_obCaps_ne, fieldVals_obCaps_eq]
+  simp only [truncConv, optSource_sv ft _ _ _ sv hS, optConv_ob _ _ _ _ o1 hMn, optConv_ob _ _ _ _ o2 hMx, optConv_ob _ _ _ _ o3 hBf,
+    optConv_ob _ _ _ _ o4 hDb, fv, hD, conv4]
+  cases srcConv ft sv <;> cases cvo parseBytes o1 <;> cases cvo parseBytes o2 <;> cases cvo dp o3 <;> cases cvo parseBytes o4 <;>
+    simp [mkTrunc]
+
+/-- what the struct wrapper makes of the body's result -/
+def strctRes (name : String) (r : Res) : Res :=
+  match r with
+  | .ok _ caps cur' => .ok [.node name caps] [] cur'
+  | .noMatch => .noMatch
+  | .err k _ => .err k true
+
+theorem trunc_tail (dp : Bytes → Option Int) (hdp : ∀ b ∈ LP :: condOps, dp b = none) (ft : Nat) (c : Ctx) (hg : c.grammar = grammar)
+    (hH : OperandNotParen c.toks) (s : Nat) (hs1 : 1 ≤ s) (hs : s ≤ c.toks.length) (first : Bool) (vals0 : List Val) (caps0 : Caps) (dry : Bool)
+    (hcaps : (caps0 = [] ∧ dry = false) ∨ ∃ x, caps0 = [("DryRun", [Val.str x])] ∧ dry = true)
+    (fe fd : Nat) (hfe : 60 * (c.toks.length - s) + 100 ≤ fe) (hfd : 4 * (c.toks.length - s) + 5 ≤ fd) (hft : 8 * (c.toks.length - s) + 8 ≤ ft) :
+    (topRes c.toks (altRes "Lql" "Truncate" 0 (strctRes "Truncate"
+        (parseSeq c fe (optG (.capture "Source" (.strct "Source")) :: cls4.map clNode) s first vals0 caps0)))).bind (toLqlChecked dp ft)
+      = (match dOptSource fd (c.toks.drop s) with
+         | none => none
+         | some (src, t2) => (dChain4 dp t2).map (mkTrunc dry src)).map (fun tr => ({ truncate := some tr } : Lql)) := by
+  rcases src_chain c hg hH "Source" cls4 (by decide) (by decide) s hs first vals0 caps0 fe fd ft (by simp [cls4]; omega) hfd hft with
+    ⟨hE, hD⟩ | ⟨vals', sv, rest, obs, hR, hv, hdo, hrc⟩
+  · have hl : (topRes c.toks (altRes "Lql" "Truncate" 0 (strctRes "Truncate"
+        (parseSeq c fe (optG (.capture "Source" (.strct "Source")) :: cls4.map clNode) s first vals0 caps0)))) = none := by
+      rcases hE with ⟨k, hv, hR, hk⟩ | ⟨vals', caps', cur', hR, hlt⟩
+      · have hk2 : k > 0 + 1 + lookahead := by simp only [lookahead]; omega
+        rw [hR]; simp [strctRes, altRes, topRes, hk2]
+      · have hne : (cur' == c.toks.length) = false := by simp; omega
+        rw [hR]; simp [strctRes, altRes, topRes, hne]
+    rw [hl]
+    rcases hD with h | ⟨h, hdeep⟩ | ⟨osrc, rest, h, hno⟩
+    · rw [h]; rfl
+    · rw [h]; simp [deep4 dp hdp _ hdeep]
+    · rw [h]
+      rcases glue4 dp rest with ⟨o1, o2, o3, o4, hrc, _⟩ | ⟨_, hnone⟩
+      · exact absurd hrc (hno _)
+      · simp [hnone]
+  · rcases glue4 dp rest with ⟨o1, o2, o3, o4, hrc', hch⟩ | ⟨hno, _⟩
+    · rw [hrc] at hrc'
+      simp only [Option.some.injEq, Prod.mk.injEq, and_true] at hrc'
+      subst hrc'
+      rw [hR]
+      simp only [strctRes, altRes, topRes, beq_self_eq_true, if_true, List.nil_append, Option.bind_some, toLql_trunc]
+      have hD : dry = !(fieldVals caps0 "DryRun").isEmpty := by
+        rcases hcaps with ⟨rfl, rfl⟩ | ⟨x, rfl, rfl⟩ <;> simp [fieldVals]
+      rw [truncConv_caps dp ft caps0 sv o1 o2 o3 o4 (by rcases hcaps with ⟨rfl, _⟩ | ⟨x, rfl, _⟩ <;> simp [fieldVals])
+        (by rcases hcaps with ⟨rfl, _⟩ | ⟨x, rfl, _⟩ <;> simp [fieldVals]) (by rcases hcaps with ⟨rfl, _⟩ | ⟨x, rfl, _⟩ <;> simp [fieldVals])
+        (by rcases hcaps with ⟨rfl, _⟩ | ⟨x, rfl, _⟩ <;> simp [fieldVals]) (by rcases hcaps with ⟨rfl, _⟩ | ⟨x, rfl, _⟩ <;> simp [fieldVals]),
+        hdo, ← hD]
+      cases srcConv ft sv with
+      | none => rfl
+      | some o => simp [hch]
+    · exact absurd hrc (hno _)
+
+/-- **engine = direct parser on TRUNCATE statements.** Extra hypothesis `hdp` (needed: the statement is false without it, see
+`cex_truncate_dp`): the date parser rejects the texts `(` and the ten condition operators. -/
+theorem engine_direct_truncate (dp : Bytes → Option Int) (hdp : ∀ b ∈ LP :: condOps, dp b = none) (ft : Nat) (t : Tok) (r : List Tok)
+    (hH : OperandNotParen (t :: r)) (hft : 8 * (t :: r).length + 50 ≤ ft)
+    (h1 : litMatch t kwSELECT = false) (h2 : litMatch t kwDESCRIBE = false) (h3 : litMatch t kwTRUNCATE = true) :
+    (runEngine grammar "Lql" (t :: r)).bind (toLqlChecked dp ft) = dTruncateRest dp (directFuel (t :: r)) r := by
+  rw [run_lql]
+  obtain ⟨g, hg⟩ : ∃ g, 60 * (t :: r).length + 200 = g + 30 := ⟨60 * (t :: r).length + 170, rfl⟩
+  rw [hg, lql_truncate_eval t r g h1 h2 h3]
+  rw [show g + 18 = (g + 17) + 1 from rfl, parse_strct _ _ "Truncate" truncateBody 1 rfl]
+  have hb : truncateBody = .seq (optG (.capture "DryRun" (.lit kwDRYRUN)) :: optG (.capture "Source" (.strct "Source")) :: cls4.map clNode) := rfl
+  have hd : dTruncateRest dp (directFuel (t :: r)) r = (dTruncBody dp (directFuel (t :: r)) r).map (fun tr => ({ truncate := some tr } : Lql)) := by
+    unfold dTruncateRest; cases dTruncBody dp (directFuel (t :: r)) r <;> rfl
+  rw [hb, parse_seq, hd, dTruncBody_eq]
+  have hgl : g = 60 * (r.length + 1) + 170 := by simp only [List.length_cons] at hg; omega
+  simp only [List.length_cons] at hft
+  cases r with
+  | nil =>
+    have hn : (⟨[t], grammar⟩ : Ctx).toks[1]? = none := rfl
+    have e : parseSeq ⟨[t], grammar⟩ (g+16) (optG (.capture "DryRun" (.lit kwDRYRUN)) :: optG (.capture "Source" (.strct "Source")) :: cls4.map clNode) 1 true [] []
+        = parseSeq ⟨[t], grammar⟩ (g+15) (optG (.capture "Source" (.strct "Source")) :: cls4.map clNode) 1 false [] [] := by
+      simp [parseSeq_cons, parse_optG, parse_capture, parse_lit, peek]
+    rw [e]
+    exact trunc_tail dp hdp ft ⟨[t], grammar⟩ rfl hH 1 (Nat.le_refl _) (by simp) false [] [] false (Or.inl ⟨rfl, rfl⟩) (g+15) (directFuel [t])
+      (by simp; omega) (by simp [directFuel]) (by simp at hft ⊢; omega)
+  | cons p r1 =>
+    have hn : (⟨t :: p :: r1, grammar⟩ : Ctx).toks[1]? = some p := rfl
+    cases hp : litMatch p kwDRYRUN with
+    | false =>
+      have e : parseSeq ⟨t :: p :: r1, grammar⟩ (g+16) (optG (.capture "DryRun" (.lit kwDRYRUN)) :: optG (.capture "Source" (.strct "Source")) :: cls4.map clNode) 1 true [] []
+          = parseSeq ⟨t :: p :: r1, grammar⟩ (g+15) (optG (.capture "Source" (.strct "Source")) :: cls4.map clNode) 1 false [] [] := by
+        simp [parseSeq_cons, parse_optG, parse_capture, parse_lit, peek, hp]
+      rw [e]
+      have hdd : dDryRun (p :: r1) = (false, p :: r1) := by simp [dDryRun, hp]
+      rw [hdd]
+      exact trunc_tail dp hdp ft ⟨t :: p :: r1, grammar⟩ rfl hH 1 (Nat.le_refl _) (by simp) false [] [] false (Or.inl ⟨rfl, rfl⟩) (g+15) (directFuel (t :: p :: r1))
+        (by simp at hgl ⊢; omega) (by simp [directFuel]; omega) (by simp at hft ⊢; omega)
+    | true =>
+      have e : parseSeq ⟨t :: p :: r1, grammar⟩ (g+16) (optG (.capture "DryRun" (.lit kwDRYRUN)) :: optG (.capture "Source" (.strct "Source")) :: cls4.map clNode) 1 true [] []
+          = parseSeq ⟨t :: p :: r1, grammar⟩ (g+15) (optG (.capture "Source" (.strct "Source")) :: cls4.map clNode) 2 false [.str []] [("DryRun", [.str p.v])] := by
+        simp [parseSeq_cons, parse_optG, parse_capture, parse_lit, peek, hp]
+      rw [e]
+      have hdd : dDryRun (p :: r1) = (true, r1) := by simp [dDryRun, hp]
+      rw [hdd]
+      exact trunc_tail dp hdp ft ⟨t :: p :: r1, grammar⟩ rfl hH 2 (by omega) (by simp) false [.str []] _ true (Or.inr ⟨p.v, rfl, rfl⟩) (g+15) (directFuel (t :: p :: r1))
+        (by simp at hgl ⊢; omega) (by simp [directFuel]; omega) (by simp at hft ⊢; omega)
+
+/-! ## SHOW -/
+def cls2 : List Cl := [(kwOFFSET, "Offset", .number), (kwLIMIT, "Limit", .number)]
+
+def dChain2 (t1 : List Tok) : Option (Option Int × Option Int) :=
+  match dKwClause kwOFFSET dIntTok t1 with
+  | none => none
+  | some (off, t2) =>
+    match dKwClause kwLIMIT dIntTok t2 with
+    | none => none
+    | some (lim, r) => (match r with | [] => some (off, lim) | _ :: _ => none)
+
+theorem dSrcOffLim_eq (f : Nat) (toks : List Tok) :
+    dSrcOffLim f toks = (match dOptSource f toks with
+      | none => none
+      | some (src, t1) => (dChain2 t1).map (fun q => (src, q.1, q.2))) := by
+  unfold dSrcOffLim dChain2
+  cases dOptSource f toks with
+  | none => rfl
+  | some p =>
+    obtain ⟨src, t1⟩ := p
+    simp only []
+    cases dKwClause kwOFFSET dIntTok t1 with
+    | none => rfl
+    | some p1 =>
+      obtain ⟨off, t2⟩ := p1
+      simp only []
+      cases dKwClause kwLIMIT dIntTok t2 with
+      | none => rfl
+      | some p2 =>
+        obtain ⟨lim, r⟩ := p2
+        cases r <;> rfl
+
+def conv2 (o1 o2 : Option Bytes) : Option (Option Int × Option Int) :=
+  (cvo parseInt0 o1).bind fun a => (cvo parseInt0 o2).bind fun b => some (a, b)
+
+theorem glue2 (t1 : List Tok) :
+    (∃ o1 o2, rawChain cls2 t1 = some ([o1, o2], []) ∧ dChain2 t1 = conv2 o1 o2)
+    ∨ ((∀ obs, rawChain cls2 t1 ≠ some (obs, [])) ∧ dChain2 t1 = none) := by
+  simp only [dChain2, dInt_raw, rawChain, cls2]
+  cases k1 : rawKw kwOFFSET TT.number t1 with
+  | none => right; simp [convCl]
+  | some p1 =>
+    obtain ⟨o1, r1⟩ := p1
+    simp only []
+    cases k2 : rawKw kwLIMIT TT.number r1 with
+    | none => right; cases h : cvo parseInt0 o1 <;> simp [convCl, h, k2]
+    | some p2 =>
+      obtain ⟨o2, r2⟩ := p2
+      simp only []
+      cases r2 with
+      | nil =>
+        left; refine ⟨o1, o2, rfl, ?_⟩
+        cases h : cvo parseInt0 o1 <;> cases h2 : cvo parseInt0 o2 <;> simp [convCl, conv2, h, h2, k2]
+      | cons q r3 =>
+        right
+        cases h : cvo parseInt0 o1 <;> cases h2 : cvo parseInt0 o2 <;> simp [convCl, h, h2, k2]
+
+theorem deep2 (toks : List Tok) (hd : deepStart toks = true) : dChain2 toks = none := by
+  simp only [dChain2, dInt_raw]
+  rcases convCl_deep parseInt0 kwOFFSET .number toks hd (by decide) (by decide) (by decide) parseInt0_deep with h | h <;> rw [h]
+  simp only []
+  rcases convCl_deep parseInt0 kwLIMIT .number toks hd (by decide) (by decide) (by decide) parseInt0_deep with h | h <;> rw [h]
+  cases toks with
+  | nil => simp [deepStart] at hd
+  | cons _ _ => rfl
+
+/-- the typed application of the captures of `Partitions` / `Pipes` (source field `fl`) -/
+def polConv (fl : String) (ft : Nat) (p : Val) : Option (Option Source × Option Int × Option Int) := do
+  let src ← optSource ft p fl
+  let off ← optConv p "Offset" parseInt0
+  let lim ← optConv p "Limit" parseInt0
+  pure (src, off, lim)
+
+theorem polConv_caps (fl : String) (ft : Nat) (N : String) (sv : List Val) (o1 o2 : Option Bytes)
+    (e1 : (fl == "Offset") = false) (e2 : (fl == "Limit") = false) (e3 : ("Offset" == fl) = false) (e4 : ("Limit" == fl) = false) :
+    polConv fl ft (.node N (srcCaps fl sv ++ rawCaps cls2 [o1, o2])) =
+      (srcConv ft sv).bind fun src => (conv2 o1 o2).map (fun q => (src, q.1, q.2)) := by
+  have hS : fieldVals (srcCaps fl sv ++ rawCaps cls2 [o1, o2]) fl = sv := by
+    simp [fieldVals_append, fieldVals_srcCaps_eq, rawCaps, cls2, fieldVals_obCaps_ne, e3, e4]
+  have hO : fieldVals (srcCaps fl sv ++ rawCaps cls2 [o1, o2]) "Offset" = obVals o1 := by
+    simp [fieldVals_append, fieldVals_srcCaps_ne, e1, rawCaps, cls2, fieldVals_obCaps_ne, fieldVals_obCaps_eq]
+  have hL : fieldVals (srcCaps fl sv ++ rawCaps cls2 [o1, o2]) "Limit" = obVals o2 := by
+    simp [fieldVals_append, fieldVals_srcCaps_ne, e2, rawCaps, cls2, fieldVals_obCaps_ne, fieldVals_obCaps_eq]
+  simp only [polConv, optSource_sv ft _ _ _ sv hS, optConv_ob _ _ _ _ o1 hO, optConv_ob _ _ _ _ o2 hL, conv2]
+  cases srcConv ft sv <;> cases cvo parseInt0 o1 <;> cases cvo parseInt0 o2 <;> simp
+
+theorem optNode_single_ne {α : Type} (N g f : String) (x : Val) (conv : Val → Option α) (h : (g == f) = false) :
+    optNode (.node N [(g, [x])]) f conv = some none := by simp [optNode, fv, fieldVals, h]
+theorem optNode_single_eq {α : Type} (N f : String) (x : Val) (conv : Val → Option α) :
+    optNode (.node N [(f, [x])]) f conv = (conv x).map some := by simp [optNode, fv, fieldVals]
+
+def mkPart (q : Option Source × Option Int × Option Int) : Lql :=
+  { show_ := some { partitions := some { source := q.1, offset := q.2.1, limit := q.2.2 } } }
+def mkPipes (q : Option Source × Option Int × Option Int) : Lql :=
+  { show_ := some { pipes := some { void := q.1, offset := q.2.1, limit := q.2.2 } } }
+
+theorem toLql_show_part (dp : Bytes → Option Int) (ft : Nat) (p : Val) :
+    toLqlChecked dp ft (.node "Lql" [("Show", [.node "Show" [("Partitions", [p])]])]) = (polConv "Source" ft p).map mkPart := by
+  have h : toLql dp ft (.node "Lql" [("Show", [.node "Show" [("Partitions", [p])]])]) = (polConv "Source" ft p).map mkPart := by
+    unfold toLql
+    simp only [optNode_single_eq, optNode_single_ne _ "Show" "Select" _ _ (by decide), optNode_single_ne _ "Show" "Describe" _ _ (by decide),
+      optNode_single_ne _ "Show" "Truncate" _ _ (by decide), optNode_single_ne _ "Show" "Create" _ _ (by decide),
+      optNode_single_ne _ "Show" "Delete" _ _ (by decide), optNode_single_ne _ "Partitions" "Pipes" _ _ (by decide)]
+    cases h1 : optSource ft p "Source" <;> cases h2 : optConv p "Offset" parseInt0 <;> cases h3 : optConv p "Limit" parseInt0 <;>
+      simp [polConv, mkPart, h1, h2, h3]
+  rw [toLqlChecked, h]
+  cases polConv "Source" ft p with
+  | none => rfl
+  | some x => simp [postCheck, hasEmptyRange, mkPart]
+
+theorem toLql_show_pipes (dp : Bytes → Option Int) (ft : Nat) (p : Val) :
+    toLqlChecked dp ft (.node "Lql" [("Show", [.node "Show" [("Pipes", [p])]])]) = (polConv "Void" ft p).map mkPipes := by
+  have h : toLql dp ft (.node "Lql" [("Show", [.node "Show" [("Pipes", [p])]])]) = (polConv "Void" ft p).map mkPipes := by
+    unfold toLql
+    simp only [optNode_single_eq, optNode_single_ne _ "Show" "Select" _ _ (by decide), optNode_single_ne _ "Show" "Describe" _ _ (by decide),
+      optNode_single_ne _ "Show" "Truncate" _ _ (by decide), optNode_single_ne _ "Show" "Create" _ _ (by decide),
+      optNode_single_ne _ "Show" "Delete" _ _ (by decide), optNode_single_ne _ "Pipes" "Partitions" _ _ (by decide)]
+    cases h1 : optSource ft p "Void" <;> cases h2 : optConv p "Offset" parseInt0 <;> cases h3 : optConv p "Limit" parseInt0 <;>
+      simp [polConv, mkPipes, h1, h2, h3]
+  rw [toLqlChecked, h]
+  cases polConv "Void" ft p with
+  | none => rfl
+  | some x => simp [postCheck, hasEmptyRange, mkPipes]
+
+theorem kwAlt_none (c : Ctx) (kw : Bytes) (fl S : String) (f cur : Nat) (hn : c.toks[cur]? = none) :
+    parse c (f+3) (kwAlt kw fl S) cur = .noMatch := by
+  simp only [kwAlt, parse_seq, parseSeq_cons, parse_lit, peek, hn, if_true]
+
+/-- `disj_hit` for any struct name -/
+theorem disj_hit' (name : String) (c : Ctx) (cur : Nat) (t : Tok) (hn : c.toks[cur]? = some t) (kw : Bytes) (fl S : String) (rest : List Node)
+    (f : Nat) (hc : litMatch t kw = true) :
+    strctRes name (parseDisj c (f+8) (kwAlt kw fl S :: rest) cur none) = altRes name fl cur (parse c (f+1) (.strct S) (cur+1)) := by
+  rw [parseDisj_cons, kwAlt_lit c kw fl S f cur t hn hc]
+  cases parse c (f+1) (.strct S) (cur+1) with
+  | ok v cp cur' => simp [altRes, strctRes]
+  | noMatch => simp [altRes, strctRes]
+  | err k hv =>
+    by_cases hk : k > cur + 1 + lookahead
+    · have hk2 : k > cur + lookahead := by omega
+      simp [altRes, strctRes, hk, hk2]
+    · simp [altRes, strctRes, hk]
+
+theorem parse_strct' (c : Ctx) (f : Nat) (name : String) (body : Node) (cur : Nat) (h : c.grammar name = some body) :
+    parse c (f+1) (.strct name) cur = strctRes name (parse c f body cur) := by
+  rw [parse_strct c f name body cur h]; rfl
+
+theorem pol_tail (dp : Bytes → Option Int) (ft : Nat) (c : Ctx) (hg : c.grammar = grammar) (hH : OperandNotParen c.toks)
+    (hlen : 2 ≤ c.toks.length) (F N fl : String) (mk : Option Source × Option Int × Option Int → Lql)
+    (e1 : (fl == "Offset") = false) (e2 : (fl == "Limit") = false) (e3 : ("Offset" == fl) = false) (e4 : ("Limit" == fl) = false)
+    (hconv : ∀ p, toLqlChecked dp ft (.node "Lql" [("Show", [.node "Show" [(F, [p])]])]) = (polConv fl ft p).map mk)
+    (fe fd : Nat) (hfe : 60 * (c.toks.length - 2) + 100 ≤ fe) (hfd : 4 * (c.toks.length - 2) + 5 ≤ fd) (hft : 8 * (c.toks.length - 2) + 8 ≤ ft) :
+    (topRes c.toks (altRes "Lql" "Show" 0 (altRes "Show" F 1 (strctRes N
+        (parseSeq c fe (optG (.capture fl (.strct "Source")) :: cls2.map clNode) 2 true [] []))))).bind (toLqlChecked dp ft)
+      = (dSrcOffLim fd (c.toks.drop 2)).map mk := by
+  rw [dSrcOffLim_eq]
+  rcases src_chain c hg hH fl cls2 (by decide) (by decide) 2 hlen true [] [] fe fd ft (by simp [cls2]; omega) hfd hft with
+    ⟨hE, hD⟩ | ⟨vals', sv, rest, obs, hR, hv, hdo, hrc⟩
+  · have hl : (topRes c.toks (altRes "Lql" "Show" 0 (altRes "Show" F 1 (strctRes N
+        (parseSeq c fe (optG (.capture fl (.strct "Source")) :: cls2.map clNode) 2 true [] []))))) = none := by
+      rcases hE with ⟨k, hv, hR, hk⟩ | ⟨vals', caps', cur', hR, hlt⟩
+      · have hk1 : k > 1 + 1 + lookahead := by simp only [lookahead]; omega
+        have hk2 : k > 0 + 1 + lookahead := by simp only [lookahead]; omega
+        rw [hR]; simp [strctRes, altRes, topRes, hk1, hk2]
+      · have hne : (cur' == c.toks.length) = false := by simp; omega
+        rw [hR]; simp [strctRes, altRes, topRes, hne]
+    rw [hl]
+    rcases hD with h | ⟨h, hdeep⟩ | ⟨osrc, rest, h, hno⟩
+    · rw [h]; rfl
+    · rw [h]; simp [deep2 _ hdeep]
+    · rw [h]
+      rcases glue2 rest with ⟨o1, o2, hrc, _⟩ | ⟨_, hnone⟩
+      · exact absurd hrc (hno _)
+      · simp [hnone]
+  · rcases glue2 rest with ⟨o1, o2, hrc', hch⟩ | ⟨hno, _⟩
+    · rw [hrc] at hrc'
+      simp only [Option.some.injEq, Prod.mk.injEq, and_true] at hrc'
+      subst hrc'
+      simp only [List.nil_append] at hR
+      rw [hR]
+      simp only [strctRes, altRes, topRes, beq_self_eq_true, if_true, List.nil_append, Option.bind_some, hconv]
+      rw [polConv_caps fl ft N sv o1 o2 e1 e2 e3 e4, hdo]
+      cases srcConv ft sv with
+      | none => rfl
+      | some o => simp [hch]
+    · exact absurd hrc (hno _)
+
+/-- **engine = direct parser on SHOW statements** -/
+theorem engine_direct_show (dp : Bytes → Option Int) (ft : Nat) (t : Tok) (r : List Tok)
+    (hH : OperandNotParen (t :: r)) (hft : 8 * (t :: r).length + 50 ≤ ft)
+    (h1 : litMatch t kwSELECT = false) (h2 : litMatch t kwDESCRIBE = false) (h3 : litMatch t kwTRUNCATE = false)
+    (h4 : litMatch t kwSHOW = true) :
+    (runEngine grammar "Lql" (t :: r)).bind (toLqlChecked dp ft) = dShowRest (directFuel (t :: r)) r := by
+  rw [run_lql]
+  obtain ⟨g, hg⟩ : ∃ g, 60 * (t :: r).length + 200 = g + 30 := ⟨60 * (t :: r).length + 170, rfl⟩
+  rw [hg, lql_show_eval t r g h1 h2 h3 h4]
+  rw [show g + 17 = (g + 16) + 1 from rfl, parse_strct' _ _ "Show" showBody 1 rfl]
+  simp only [showBody, parse_once, parse_disj]
+  have hgl : g = 60 * (r.length + 1) + 170 := by simp only [List.length_cons] at hg; omega
+  simp only [List.length_cons] at hft
+  cases r with
+  | nil =>
+    have hn : (⟨[t], grammar⟩ : Ctx).toks[1]? = none := rfl
+    rw [parseDisj_cons, kwAlt_none _ _ _ _ (g+10) 1 hn]
+    simp only []
+    rw [parseDisj_cons, kwAlt_none _ _ _ _ (g+9) 1 hn]
+    simp [parseDisj_nil, strctRes, altRes, topRes, dShowRest, toLqlChecked, toLql, optNode, fv, fieldVals, postCheck, hasEmptyRange]
+  | cons k r' =>
+    have hn : (⟨t :: k :: r', grammar⟩ : Ctx).toks[1]? = some k := rfl
+    cases hk : litMatch k kwPARTITIONS with
+    | true =>
+      rw [disj_hit' "Show" _ 1 k hn _ _ _ _ (g+6) hk]
+      rw [parse_strct' _ _ "Partitions" partitionsBody 2 rfl]
+      have hb : partitionsBody = .seq (optG (.capture "Source" (.strct "Source")) :: cls2.map clNode) := rfl
+      rw [hb, parse_seq]
+      have hd : dShowRest (directFuel (t :: k :: r')) (k :: r') = (dSrcOffLim (directFuel (t :: k :: r')) r').map mkPart := by
+        simp only [dShowRest, hk, if_true]
+        cases dSrcOffLim (directFuel (t :: k :: r')) r' with
+        | none => rfl
+        | some q => obtain ⟨s, o, l⟩ := q; rfl
+      rw [hd]
+      exact pol_tail dp ft ⟨t :: k :: r', grammar⟩ rfl hH (by simp) "Partitions" "Partitions" "Source" mkPart (by decide) (by decide) (by decide) (by decide)
+        (toLql_show_part dp ft) (g+5) (directFuel (t :: k :: r')) (by simp at hgl ⊢; omega) (by simp [directFuel]; omega) (by simp at hft ⊢; omega)
+    | false =>
+      rw [show g + 14 = (g + 10) + 4 from rfl, disj_skip _ 1 k hn _ _ _ _ (g+10) _ hk]
+      cases hk2 : litMatch k kwPIPES with
+      | true =>
+        rw [disj_hit' "Show" _ 1 k hn _ _ _ _ (g+5) hk2]
+        rw [parse_strct' _ _ "Pipes" pipesBody 2 rfl]
+        have hb : pipesBody = .seq (optG (.capture "Void" (.strct "Source")) :: cls2.map clNode) := rfl
+        rw [hb, parse_seq]
+        have hd : dShowRest (directFuel (t :: k :: r')) (k :: r') = (dSrcOffLim (directFuel (t :: k :: r')) r').map mkPipes := by
+          simp only [dShowRest, hk, hk2, if_true, Bool.false_eq_true, if_false]
+          cases dSrcOffLim (directFuel (t :: k :: r')) r' with
+          | none => rfl
+          | some q => obtain ⟨s, o, l⟩ := q; rfl
+        rw [hd]
+        exact pol_tail dp ft ⟨t :: k :: r', grammar⟩ rfl hH (by simp) "Pipes" "Pipes" "Void" mkPipes (by decide) (by decide) (by decide) (by decide)
+          (toLql_show_pipes dp ft) (g+4) (directFuel (t :: k :: r')) (by simp at hgl ⊢; omega) (by simp [directFuel]; omega) (by simp at hft ⊢; omega)
+      | false =>
+        rw [parseDisj_cons, kwAlt_nolit _ _ _ _ (g+9) 1 k hn hk2]
+        simp [parseDisj_nil, strctRes, altRes, topRes, dShowRest, hk, hk2]
+
+/-! ## why `engine_direct_truncate` needs `hdp` -/
+/-- the tokens of `TRUNCATE BEFORE "(" MAXDBSIZE 10` (String tokens are unquoted by the lexer) -/
+def cexTruncToks : List Tok := [⟨.keyword, kwTRUNCATE⟩, ⟨.keyword, kwBEFORE⟩, ⟨.string, [40]⟩, ⟨.keyword, kwMAXDBSIZE⟩, ⟨.number, [49, 48]⟩]
+
+/-- with a date parser that accepts the text `(` the engine rejects (the unguarded `Source` attempt reads `BEFORE ( MAXDBSIZE` as an
+`Identifier` with parameters and fails two tokens in: a hard error) while the direct parser accepts: without `hdp` the statement of
+`engine_direct_truncate` is false -/
+theorem cex_truncate_dp :
+    OperandNotParen cexTruncToks ∧
+    ((runEngine grammar "Lql" cexTruncToks).bind (toLqlChecked (fun _ => some 0) 1000)).isSome = false ∧
+    (dTruncateRest (fun _ => some 0) (directFuel cexTruncToks) cexTruncToks.tail).isSome = true := by
+  refine ⟨?_, ?_, ?_⟩
+  · intro t ht; revert t; decide
+  · decide +kernel
+  · decide +kernel
 
 end Logrange.Lql
